@@ -77,6 +77,12 @@ class Tr:
             if e.id not in self.env:
                 self.fail(e, "unknown name %s" % e.id)
             return self.env[e.id]
+        if isinstance(e, ast.Constant) and isinstance(e.value, float):
+            from fractions import Fraction
+            fr = Fraction(repr(e.value))
+            if fr <= 0:
+                self.fail(e, "unsupported float constant %r" % (e.value,))
+            return ("s", "(odiv o (oZ o %d) (oZ o %d))" % (fr.numerator, fr.denominator))
         if isinstance(e, ast.Constant):
             if isinstance(e.value, bool) or not isinstance(e.value, int):
                 self.fail(e, "unsupported constant %r" % (e.value,))
@@ -414,27 +420,30 @@ def gen_circumcenter(out, parts):
     tr = Tr(GEOM, {"A": ("w", "A"), "B": ("w", "B")}, set())
     body = tr.block([b[0].orelse[0], b[1].orelse[0], b[2]], "s")
     out.append("Definition g_det2 (A B : (T * T)%%type) : T :=\n    %s.\n" % body)
-    # intersect_2lines2D: guard |det| < eps -> None
+    # intersect_2lines2D: `det = det_2x2(d1,d2)` ; `if <lhs> <cmp> <rhs> : return None` (parallelism guard) ; intersection
     fn = T.find_def(tree, "intersect_2lines2D", GEOM)
     parts.append(("geometry.py:intersect_2lines2D", T.sha(src, fn)))
     b = T.body_nodoc(fn)
-    if not (len(b) == 5 and seg_is(src, b[0], "p1,d1,p2,d2 = (u[:2] for u in (p1,d1,p2,d2))") and isinstance(b[1], ast.If)
-            and len(b[1].body) == 1 and seg_is(src, b[1].body[0], "return None") and not b[1].orelse):
+    if not (len(b) == 6 and seg_is(src, b[0], "p1,d1,p2,d2 = (u[:2] for u in (p1,d1,p2,d2))")
+            and seg_is(src, b[1], "det = det_2x2(d1,d2)") and isinstance(b[2], ast.If)
+            and len(b[2].body) == 1 and seg_is(src, b[2].body[0], "return None") and not b[2].orelse):
         T.fail(GEOM, fn, "intersect_2lines2D: unexpected shape")
-    g = b[1].test
-    if not (isinstance(g, ast.Compare) and len(g.ops) == 1 and isinstance(g.ops[0], ast.Lt) and seg_is(src, g.left, "abs(det_2x2(d1,d2))")
-            and isinstance(g.comparators[0], ast.Constant) and isinstance(g.comparators[0].value, float)):
-        T.fail(GEOM, g, "intersect_2lines2D: guard is not `abs(det_2x2(d1,d2)) < <float>`")
-    from fractions import Fraction
-    eps = Fraction(T.seg(src, g.comparators[0]))
+    g = b[2].test
+    if not (isinstance(g, ast.Compare) and len(g.ops) == 1 and type(g.ops[0]) in (ast.Lt, ast.LtE)):
+        T.fail(GEOM, g, "intersect_2lines2D: guard is not `<expr> < <expr>` or `<expr> <= <expr>`")
     env = {k: ("w", k) for k in ("p1", "d1", "p2", "d2")}
     tr = Tr(GEOM, env, {"dot", "det_2x2", "abs"})
-    guard = tr.as_s(tr.tr(g.left), g)
-    body = tr.block(b[2:], "w")
-    out.append("(* None when |det| < %s (the source's literal), i.e. when NOT eps <= |det| *)\n"
+    lets = []
+    tr.assign(b[1].targets[0], b[1].value, lets, b[1])
+    lhs = tr.as_s(tr.tr(g.left), g)
+    rhs = tr.as_s(tr.tr(g.comparators[0]), g)
+    parallel = ("oleb o %s %s" % (lhs, rhs)) if isinstance(g.ops[0], ast.LtE) else ("negb (oleb o %s %s)" % (rhs, lhs))
+    body = tr.block(b[3:], "w")
+    out.append("(* None when the two directions are (numerically) parallel: the source's guard, literal constants as exact rationals *)\n"
                "Definition g_intersect_2lines2D (p1 d1 p2 d2 : (T * T)%%type) : option (T * T) :=\n"
-               "    if oleb o (odiv o (oZ o %d) (oZ o %d)) %s then Some (\n    %s) else None.\n"
-               % (eps, eps.numerator, eps.denominator, guard, body))
+               "    let %s := %s in\n"
+               "    if %s then None else Some (\n    %s).\n"
+               % (lets[0][0], lets[0][1], parallel, body))
     # circumcenter
     fn = T.find_def(tree, "circumcenter", GEOM)
     parts.append(("geometry.py:circumcenter", T.sha(src, fn)))
